@@ -88,6 +88,7 @@ func run(r *vk.Run) {
 	if r.Shard == 0 || r.Only != "" {
 		e.requestMetadata()
 		e.responseMetadataPlumbing()
+		e.handlerReaderLeftBehind()
 	}
 
 	for k := 0; k < aliasN; k++ {
